@@ -89,10 +89,34 @@ def run(ctx: Context, rep) -> None:
             l, r = role(e.left), role(e.comparators[0])
             if ("arg" in l and "stored" in r) or ("stored" in l and "arg" in r):
                 return "ne" if isinstance(e.ops[0], ast.NotEq) else "eq"
+        if isinstance(e, ast.Compare) and len(e.ops) == 1:
+            # scenario: the open shard holds one example and has room
+            # (written = 1, limit = 2); comparisons of the counter with the
+            # limit or with a number are evaluated on it
+            from sa.rules.c10 import is_counter, is_limit
+
+            def num(x):
+                if is_counter(x):
+                    return 1
+                if is_limit(x):
+                    return 2
+                if isinstance(x, ast.Constant) and type(x.value) is int:
+                    return x.value
+                return None
+            a, b = num(e.left), num(e.comparators[0])
+            if a is not None and b is not None and (
+                    is_counter(e.left) or is_counter(e.comparators[0])):
+                r = {ast.Gt: a > b, ast.GtE: a >= b, ast.Lt: a < b,
+                     ast.LtE: a <= b, ast.Eq: a == b,
+                     ast.NotEq: a != b}.get(type(e.ops[0]))
+                if r is not None:
+                    return "num_true" if r else "num_false"
         if isinstance(e, ast.Compare) and any(
                 isinstance(x, ast.Attribute) and x.attr == "written_examples"
                 for x in ast.walk(e)):
             return "size"
+        if isinstance(e, ast.Attribute) and e.attr == "written_examples":
+            return "num_true"   # truthiness of the counter, written = 1
         if isinstance(e, ast.Name) and e.id == PARAM:
             return "arg_truthy"
         if isinstance(e, ast.Name) and "stored" in role(e) and "arg" not in role(e):
@@ -109,6 +133,7 @@ def run(ctx: Context, rep) -> None:
     seen: set = set()
     for differ in (True, False):
         vals = {"ne": differ, "eq": not differ, "size": False,
+                "num_true": True, "num_false": False,
                 "arg_truthy": TRUTHY, "stored_truthy": TRUTHY}
         v = Valuation(we, atom, vals)
         c2 = CFG(we, oracle=v.truth)
@@ -126,7 +151,7 @@ def run(ctx: Context, rep) -> None:
     ok = res[True] is True and res[False] is False and ({"ne", "eq"} & seen)
     rep.ob("C11.detect", bool(ok), loc=we.loc(), where=we.qualname,
            construct="rollover decision under metadata differ / equal "
-           "(both non-empty, shard not full)",
+           "(both non-empty; the shard holds one example and is not full)",
            message=f"differ -> previous shard closed before the write on "
            f"every path: {res[True]} (required True); equal -> a close is "
            f"reachable: {res[False]} (required False); comparison atom "
@@ -236,7 +261,8 @@ SELFTESTS = [
          old="            custom_metadata != previous_metadata,\n",
          new="            custom_metadata == previous_metadata,\n"),
     dict(rule="C11.detect", name="detection-dropped", expect="fire", path=_P,
-         old="                metadata_changed):\n", new="                False):\n"),
+         old="            (metadata_changed and current_progress.written_examples > 0)):\n",
+         new="            False):\n"),
     dict(rule="C11.detect", name="explicit-and-twin", expect="silent", path=_P,
          old="        metadata_changed: bool = all((\n            custom_metadata,\n            previous_metadata,\n            custom_metadata != previous_metadata,\n        ))\n",
          new="        metadata_changed: bool = bool(custom_metadata and previous_metadata and not custom_metadata == previous_metadata)\n"),
